@@ -156,6 +156,24 @@ const c25NS = int64(1000000000)
 // 1..20-digit grammar: beyond what a time.Duration can express (~9.22e9 s), powers of two, the
 // int64 edge, and values where time.Unix(ts, 0) itself wraps internally.
 func c25FarTs(r *Rng, nowS int64) string {
+	if r.Chance(25) {
+		// leading-zero numerals: the field is a DECIMAL numeral (the grammar is [0-9]{1,20}), so these
+		// are far-future timestamps; read as octal (strconv base 0) they would land inside the window
+		near := nowS + int64(r.Range(-2, 2))
+		if near < 0 {
+			near = 0
+		}
+		switch r.Intn(4) {
+		case 0:
+			return "0" + strconv.FormatInt(near, 8)
+		case 1:
+			return "00" + strconv.FormatInt(near, 8)
+		case 2:
+			return "0" + strconv.FormatInt(nowS, 8)
+		default:
+			return strings.Repeat("0", r.Range(1, 6)) + strconv.FormatInt(near, 8)
+		}
+	}
 	switch r.Intn(16) {
 	case 0:
 		return strconv.FormatInt(nowS+10000000000, 10)
@@ -253,14 +271,16 @@ func c25GenHistory(g *Gen, r *Rng) {
 		if ts < 0 {
 			ts = 0
 		}
-		if r.Chance(10) { // stamped far away from the clock, correctly signed
-			ts, _ = strconv.ParseInt(c25FarTs(r, base), 10, 64)
+		tsStr := strconv.FormatInt(ts, 10)
+		if r.Chance(12) { // stamped far away from the clock (or a leading-zero numeral), correctly signed
+			tsStr = c25FarTs(r, base)
+			ts, _ = strconv.ParseInt(tsStr, 10, 64)
 		}
 		nonce := c25RandTok(r, 22)
 		if len(pool) > 0 && r.Chance(12) { // same nonce under another key / timestamp
 			nonce = strings.Split(pool[r.Intn(len(pool))].tok, ".")[3]
 		}
-		pool = append(pool, c25Minted{c25Token(k.secret, k.kid, strconv.FormatInt(ts, 10), nonce, w.origin), ts})
+		pool = append(pool, c25Minted{c25Token(k.secret, k.kid, tsStr, nonce, w.origin), ts})
 	}
 	now := base*c25NS + int64(r.Intn(int(c25NS)))
 	monotone := !r.Chance(15)
@@ -369,7 +389,9 @@ func c25Mutate(r *Rng, w *c25World, tok string, ts int64) string {
 		return remac()
 	case 4: // numerically equal / huge / boundary timestamps, correctly signed
 		f[2] = Pick(r, []string{"0" + f[2], "00000000000000000000", "9223372036854775807", "9223372036854775808", "99999999999999999999",
-			"18446744073709551616", strings.Repeat("0", 20-min(len(f[2]), 20)) + f[2], strings.Repeat("0", 21-min(len(f[2]), 21)) + f[2], "-" + f[2], "+" + f[2], "1e9", ""})
+			"18446744073709551616", strings.Repeat("0", 20-min(len(f[2]), 20)) + f[2], strings.Repeat("0", 21-min(len(f[2]), 21)) + f[2], "-" + f[2], "+" + f[2], "1e9", "",
+			"0x" + strconv.FormatInt(ts, 16), "0X" + strconv.FormatInt(ts, 16), "0o" + strconv.FormatInt(ts, 8), "0b" + strconv.FormatInt(ts, 2),
+			strconv.FormatInt(ts, 16), f[2][:1] + "_" + f[2][1:], "0" + strconv.FormatInt(ts, 8), "00" + strconv.FormatInt(ts, 8), "0_" + strconv.FormatInt(ts, 8)})
 		return remac()
 	case 5:
 		f[3] = edit(f[3])
@@ -564,10 +586,12 @@ func c25GenVerifyUnit(g *Gen, r *Rng) {
 		} else {
 			key := Pick(r, w.keys)
 			ts := now/c25NS + int64(r.Range(int(-skew-1), int(skew+1)))
+			tsStr := strconv.FormatInt(ts, 10)
 			if r.Chance(12) {
-				ts, _ = strconv.ParseInt(c25FarTs(r, now/c25NS), 10, 64)
+				tsStr = c25FarTs(r, now/c25NS)
+				ts, _ = strconv.ParseInt(tsStr, 10, 64)
 			}
-			p = c25Minted{c25Token(key.secret, key.kid, strconv.FormatInt(ts, 10), c25RandTok(r, 22), w.origin), ts}
+			p = c25Minted{c25Token(key.secret, key.kid, tsStr, c25RandTok(r, 22), w.origin), ts}
 			toks = append(toks, p)
 		}
 		tok := p.tok
